@@ -184,7 +184,7 @@ Section Parser.
 
   Definition parse_unicode (ver : N) (seen : list str) (a : attrs) (cps : list N) : res (list N) :=
     bind (attr_loop ver KUnicode false seen [] a) (fun '(s, _) =>
-      match lookup k_hex s with Some (VHex c) => Ok (cps_insert c cps) | _ => Ok cps end).
+      match lookup k_hex s with Some (VHex c) => Ok (cps_insert c cps) | _ => Err EBadHexValue end).
 
   Definition parse_anchor (ver : N) (seen : list str) (a : attrs) : res (anchor * list str) :=
     bind (attr_loop ver KAnchor false seen [] a) (fun '(s, seen') =>
@@ -281,7 +281,9 @@ Section Parser.
         end
     | Empty name a :: r =>
         match ekind_of name with
-        | Some KContour => parse_outline_kids ver seen cs ks r       (* attributes not looked at *)
+        | Some KContour =>                  (* attributes as for a start tag; the contour is dropped *)
+            bind (attr_loop ver KContour true seen [] a) (fun '(_, seen') =>
+              parse_outline_kids ver seen' cs ks r)
         | Some KComponent =>
             bind (parse_component ver seen a) (fun '(c, seen') =>
               parse_outline_kids ver seen' cs (ks ++ [c]) r)
@@ -307,7 +309,8 @@ Section Parser.
     end.
 
   (** ---------- the glyph body ---------- *)
-  Record pst := mkPst { st_g : glyph; st_seen : list str; st_adv : bool; st_lib : bool; st_out : bool }.
+  Record pst := mkPst { st_g : glyph; st_seen : list str; st_adv : bool; st_lib : bool; st_out : bool;
+                        st_note : bool }.
 
   Definition set_adv (g : glyph) (w h : fl) : glyph :=
     mkGlyph (gname g) w h (gcps g) (gnote g) (gimage g) (gguides g) (ganchors g) (gcomps g)
@@ -349,49 +352,59 @@ Section Parser.
       let g := st_g st in
       let '(an, cs') := if ver =? 1 then v1_split cs else ([], cs) in
       Ok (mkPst (set_outline g (ganchors g ++ an) (gcomps g ++ ks) (gcontours g ++ cs'))
-                seen' (st_adv st) (st_lib st) true)).
+                seen' (st_adv st) (st_lib st) true (st_note st))).
+
+  (** [expect_no_attributes] *)
+  Definition no_attrs (a : attrs) : bool := match a with [] => true | _ => false end.
 
   Definition parse_child (ver : N) (st : pst) (n : node) : res pst :=
     let g := st_g st in
-    let upd g' := mkPst g' (st_seen st) (st_adv st) (st_lib st) (st_out st) in
+    let upd g' := mkPst g' (st_seen st) (st_adv st) (st_lib st) (st_out st) (st_note st) in
     match n with
     | Elem name a kids =>
         match ekind_of name with
-        | Some KOutline => if st_out st then Err EDuplicateElement else parse_outline ver st kids
+        | Some KOutline =>
+            if st_out st then Err EDuplicateElement
+            else if no_attrs a then parse_outline ver st kids else Err EUnexpectedAttribute
         | Some KLib =>
             if st_lib st then Err EDuplicateElement
+            else if negb (no_attrs a) then Err EUnexpectedAttribute
             else match plist_of_nodes pf kids with
                  | None => Err EBadLib
-                 | Some (PDict d) => Ok (mkPst (set_lib g d) (st_seen st) (st_adv st) true (st_out st))
+                 | Some (PDict d) =>
+                     Ok (mkPst (set_lib g d) (st_seen st) (st_adv st) true (st_out st) (st_note st))
                  | Some _ => Err ELibMustBeDictionary
                  end
         | Some KNote =>
             if ver =? 1 then Err EUnexpectedV1Element
-            else match gnote g with
-                 | Some _ => Err EDuplicateElement
-                 | None => Ok (upd (set_note g (note_of None kids)))
-                 end
+            else if st_note st then Err EDuplicateElement
+            else if negb (no_attrs a) then Err EUnexpectedAttribute
+            else Ok (mkPst (set_note g (note_of (gnote g) kids)) (st_seen st) (st_adv st) (st_lib st)
+                           (st_out st) true)
         | _ => Err EUnexpectedElement
         end
     | Empty name a =>
         match ekind_of name with
         | Some KOutline =>
             if st_out st then Err EDuplicateElement
-            else Ok (mkPst g (st_seen st) (st_adv st) (st_lib st) true)
+            else if no_attrs a then Ok (mkPst g (st_seen st) (st_adv st) (st_lib st) true (st_note st))
+            else Err EUnexpectedAttribute
         | Some KAdvance =>
             if st_adv st then Err EDuplicateElement
             else bind (parse_advance ver (st_seen st) a) (fun '(w, h) =>
-                   Ok (mkPst (set_adv g w h) (st_seen st) true (st_lib st) (st_out st)))
+                   Ok (mkPst (set_adv g w h) (st_seen st) true (st_lib st) (st_out st) (st_note st)))
         | Some KUnicode =>
             bind (parse_unicode ver (st_seen st) a (gcps g)) (fun c => Ok (upd (set_cps g c)))
         | Some KAnchor =>
             if ver =? 1 then Err EUnexpectedV1Element
             else bind (parse_anchor ver (st_seen st) a) (fun '(x, seen') =>
-                   Ok (mkPst (set_anchors g (ganchors g ++ [x])) seen' (st_adv st) (st_lib st) (st_out st)))
+                   Ok (mkPst (set_anchors g (ganchors g ++ [x])) seen' (st_adv st) (st_lib st) (st_out st)
+                             (st_note st)))
         | Some KGuideline =>
             if ver =? 1 then Err EUnexpectedV1Element
             else bind (parse_guideline ver (st_seen st) a) (fun '(x, seen') =>
-                   Ok (mkPst (set_guides g (gguides g ++ [x])) seen' (st_adv st) (st_lib st) (st_out st)))
+                   Ok (mkPst (set_guides g (gguides g ++ [x])) seen' (st_adv st) (st_lib st) (st_out st)
+                             (st_note st)))
         | Some KImage =>
             if ver =? 1 then Err EUnexpectedV1Element
             else match gimage g with
@@ -473,6 +486,6 @@ Section Parser.
   Definition parse_glif (d : doc) : res glyph :=
     bind (find_root (tview d)) (fun '(a, kids) =>
       bind (parse_start a) (fun '(name, ver) =>
-        bind (parse_children ver (mkPst (glyph_new name) [] false false false) (tview kids))
+        bind (parse_children ver (mkPst (glyph_new name) [] false false false false) (tview kids))
              (fun st => load_object_libs (st_g st)))).
 End Parser.
